@@ -1025,6 +1025,10 @@ def _expand_when_stmt_element(
         new_elements.append(Goto(label=else_statement_label_name))
 
         new_elements.append(Label(name=else_statement_label_name))
+        # The else branch leaves the statement like any other case: the heads of the
+        # failed cases are merged and the scope is closed
+        new_elements.append(MergeHeads(fork_uid=cases_fork_uid))
+        new_elements.append(EndScope(name=scope_label_name))
         new_elements.extend(expand_elements(element.else_elements, flow_configs))
 
     # End label
